@@ -14,7 +14,6 @@ import (
 	"sort"
 	"strings"
 	"sync"
-	"testing/synctest"
 
 	"pegsim/world"
 )
@@ -99,7 +98,7 @@ func NewTransport(w *world.World, seq *uint64) *Transport {
 // nothing is waiting and is started again by the next request.
 func (t *Transport) coordinate() {
 	for {
-		synctest.Wait()
+		Quiesce()
 		t.mu.Lock()
 		n := len(t.waiting)
 		if n == 0 {
